@@ -499,13 +499,13 @@ var assumeTransport = []string{
 
 func TestC14QuicGood(t *testing.T) {
 	e := vrun.LoadEnv()
-	meta := vrun.Meta{Property: "C14", Workload: "TestC14QuicGood", Total: e.Pick(24, 200), Rule: "QUIC. " + ruleGood, Assumptions: assumeTransport}
+	meta := vrun.Meta{Property: "C14", Workload: "TestC14QuicGood", Total: e.Pick(60, 600), Rule: "QUIC. " + ruleGood, Assumptions: assumeTransport}
 	vrun.Loop(t, meta, 4, func(c *vrun.Case) vrun.Result { return runGood(c, newQuicPair, "quic") })
 }
 
 func TestC14WebTransportGood(t *testing.T) {
 	e := vrun.LoadEnv()
-	meta := vrun.Meta{Property: "C14", Workload: "TestC14WebTransportGood", Total: e.Pick(12, 100), Rule: "WebTransport. " + ruleGood, Assumptions: assumeTransport}
+	meta := vrun.Meta{Property: "C14", Workload: "TestC14WebTransportGood", Total: e.Pick(40, 300), Rule: "WebTransport. " + ruleGood, Assumptions: assumeTransport}
 	vrun.Loop(t, meta, 4, func(c *vrun.Case) vrun.Result { return runGood(c, newWebTransportPair, "webtransport") })
 }
 
@@ -615,13 +615,13 @@ const ruleBadMix = "Case = fresh loopback connection (no compression); between 8
 
 func TestC14QuicMalformed(t *testing.T) {
 	e := vrun.LoadEnv()
-	meta := vrun.Meta{Property: "C14", Workload: "TestC14QuicMalformed", Total: e.Pick(16, 120), Rule: "QUIC. " + ruleBadMix, Assumptions: assumeTransport}
+	meta := vrun.Meta{Property: "C14", Workload: "TestC14QuicMalformed", Total: e.Pick(40, 400), Rule: "QUIC. " + ruleBadMix, Assumptions: assumeTransport}
 	vrun.Loop(t, meta, 4, func(c *vrun.Case) vrun.Result { return runBadMix(c, newQuicPair, "quic") })
 }
 
 func TestC14WebTransportMalformed(t *testing.T) {
 	e := vrun.LoadEnv()
-	meta := vrun.Meta{Property: "C14", Workload: "TestC14WebTransportMalformed", Total: e.Pick(8, 60), Rule: "WebTransport. " + ruleBadMix, Assumptions: assumeTransport}
+	meta := vrun.Meta{Property: "C14", Workload: "TestC14WebTransportMalformed", Total: e.Pick(24, 200), Rule: "WebTransport. " + ruleBadMix, Assumptions: assumeTransport}
 	vrun.Loop(t, meta, 4, func(c *vrun.Case) vrun.Result { return runBadMix(c, newWebTransportPair, "webtransport") })
 }
 
@@ -686,13 +686,13 @@ const ruleShort = "Case = (datagram length 0..7, content zero/random/0xff). Fres
 
 func TestC14QuicShortDatagram(t *testing.T) {
 	e := vrun.LoadEnv()
-	meta := vrun.Meta{Property: "C14", Workload: "TestC14QuicShortDatagram", Total: e.Pick(8, 24), Exhaustive: true, Rule: "QUIC. " + ruleShort, Assumptions: assumeTransport}
+	meta := vrun.Meta{Property: "C14", Workload: "TestC14QuicShortDatagram", Total: e.Pick(8, 12), Exhaustive: true, Rule: "QUIC. " + ruleShort, Assumptions: assumeTransport}
 	vrun.Loop(t, meta, 1, func(c *vrun.Case) vrun.Result { return runShort(c, newQuicPair, "quic") })
 }
 
 func TestC14WebTransportShortDatagram(t *testing.T) {
 	e := vrun.LoadEnv()
-	meta := vrun.Meta{Property: "C14", Workload: "TestC14WebTransportShortDatagram", Total: e.Pick(8, 24), Exhaustive: true, Rule: "WebTransport. " + ruleShort, Assumptions: assumeTransport}
+	meta := vrun.Meta{Property: "C14", Workload: "TestC14WebTransportShortDatagram", Total: e.Pick(8, 12), Exhaustive: true, Rule: "WebTransport. " + ruleShort, Assumptions: assumeTransport}
 	vrun.Loop(t, meta, 1, func(c *vrun.Case) vrun.Result { return runShort(c, newWebTransportPair, "webtransport") })
 }
 
